@@ -4,6 +4,8 @@
 // properties on every execution.  See DESIGN.md section 3.1.
 #include <fcntl.h>
 #include <signal.h>
+#include <sys/mman.h>
+#include <sys/wait.h>
 #include <stdio.h>
 #include <string.h>
 #include <time.h>
@@ -67,6 +69,19 @@ struct Crumb {
   const vector<int>* prefix = nullptr;
 };
 static Crumb g_crumb;
+
+/// Resident set size in MiB.  Every in-process invocation of ninja leaks what the real process never
+/// frees either (it leaves through exit()): ~8 KiB per invocation.  Workers are recycled by it.
+static long RssMiB() {
+  FILE* f = fopen("/proc/self/statm", "r");
+  if (!f) return 0;
+  long size = 0, rss = 0;
+  if (fscanf(f, "%ld %ld", &size, &rss) != 2) rss = 0;
+  fclose(f);
+  return rss * (sysconf(_SC_PAGESIZE) / 1024) / 1024;
+}
+static const long kRecycleMiB = 1200;   // a worker that has grown beyond this hands over after its scenario
+static const long kScenarioMiB = 3200;  // a single scenario stops (reported incomplete) beyond this
 
 static void CrashHandler(int sig) {
   static char buf[8192];
@@ -199,6 +214,7 @@ struct Stats {
   uint64_t dev_capped = 0, subset_capped = 0, crash_runs = 0, crash_worlds = 0, io_fault_runs = 0;
   int max_running = 0;
   bool complete = true;
+  bool memory_stop = false;
   set<string> outcome_kinds;
 };
 
@@ -1363,6 +1379,14 @@ struct Explorer {
         x.facts.set("output", path);
         x.facts.set("in_manifest", in_manifest);
         x.facts.set("on_disk", on_disk);
+        {
+          bool by_dyndep = false;
+          if (in_manifest) {
+            const Stmt& ps = v->stmts[v->producer.at(path)];
+            by_dyndep = find(ps.outs.begin(), ps.outs.end(), path) == ps.outs.end();
+          }
+          x.facts.set("output_supplied_by_dyndep_information", by_dyndep);
+        }
         x.facts.set("tool", op.tool ? op.tool_kind : string("build"));
         out->push_back(x);
         return;
@@ -2640,9 +2664,11 @@ struct Explorer {
     frontier.push_back({w0, 0});
     st.states = 1;
     int depth = depth_override >= 0 ? depth_override : sc.depth;
+    uint64_t pops = 0;
     const uint64_t kMaxStates = 3000000;   // per scenario; beyond it the scenario is reported as incomplete
     while (!frontier.empty()) {
       if (TimeUp() || st.states > kMaxStates) { st.complete = false; break; }
+      if ((++pops & 255) == 0 && RssMiB() > kScenarioMiB) { st.complete = false; st.memory_stop = true; break; }
       World w = frontier.front().first;
       int dpt = frontier.front().second;
       frontier.pop_front();
@@ -2920,83 +2946,174 @@ int main(int argc, char** argv) {
     if (rc1 != rc2) { dprintf(100, "REPLAYS DISAGREE\n"); return 2; }
     return rc1;
   }
+  // Scenarios are explored in forked workers that are recycled when they have grown (see RssMiB): the
+  // parent only merges their reports.  `progress` (shared memory) names the scenario a worker is in,
+  // so that a worker killed by a crash inside ninja costs exactly that scenario.
+  long* progress = (long*)mmap(nullptr, 4096, PROT_READ | PROT_WRITE, MAP_SHARED | MAP_ANONYMOUS, -1, 0);
+  auto run_batch = [&](long start, int wfd) {
+    long next = -1;   // -1: file exhausted, -2: deadline, >= 0: continue there
+    uint64_t memory_stops = 0;
   ifstream in(file);
-  if (!in) { fprintf(stderr, "cannot open %s\n", file.c_str()); return 2; }
-  while (getline(in, line)) {
-    if (line.empty()) continue;
-    ++idx;
-    if (idx % nshards != shard) continue;
-    J sj;
-    if (!js::Parse(line, &sj)) { fprintf(stderr, "bad scenario json at line %ld\n", idx); return 2; }
-    Scenario sc;
-    string err;
-    if (!LoadScenario(sj, &sc, &err)) { fprintf(stderr, "scenario %ld: %s\n", idx, err.c_str()); return 2; }
-    Explorer ex(sc);
-    g_crumb = Crumb();
-    g_crumb.scenario_index = idx;
-    ex.props = props;
-    ex.dev_bound = (int)a.GetInt("devbound", -1);
-    if (budget > 0) ex.deadline = t0 + budget;
-    ex.Explore((int)a.GetInt("depth", -1));
-    scenarios++;
-    if (!ex.st.complete) incomplete++;
-    if (ex.st.multi_outcome_points == 0) trivial++;
-    total.states += ex.st.states;
-    total.transitions += ex.st.transitions;
-    total.invocations += ex.st.invocations;
-    total.schedules += ex.st.schedules;
-    total.commands += ex.st.commands;
-    total.multi_outcome_points += ex.st.multi_outcome_points;
-    total.max_schedules_per_point = max(total.max_schedules_per_point, ex.st.max_schedules_per_point);
-    total.tainted += ex.st.tainted;
-    total.dev_capped += ex.st.dev_capped;
-    total.crash_runs += ex.st.crash_runs;
-    total.crash_worlds += ex.st.crash_worlds;
-    total.io_fault_runs += ex.st.io_fault_runs;
-    total.max_running = max(total.max_running, ex.st.max_running);
-    for (auto& k : ex.st.outcome_kinds) total.outcome_kinds.insert(k);
-    for (auto& v : ex.violations) {
-      J o = J::Obj();
-      o.set("prop", v.prop);
-      o.set("clause", v.clause);
-      o.set("detail", v.detail);
-      o.set("facts", v.facts);
-      o.set("scenario_name", sc.name);
-      o.set("scenario_index", idx);
-      o.set("family", sc.family);
-      J tg = J::Arr();
-      for (auto& t : sc.tags) tg.push(t);
-      o.set("tags", tg);
-      o.set("history", HistToJson(sc, v.hist));
-      if (v.known >= 0) { if (known_kept[v.known]++ < 5) viol.push(o); }
-      else if (unknown_kept++ < 400) viol.push(o);
+    if (!in) { fprintf(stderr, "cannot open %s\n", file.c_str()); _exit(2); }
+    while (getline(in, line)) {
+      if (line.empty()) continue;
+      ++idx;
+      if (idx % nshards != shard) continue;
+      if (idx < start) continue;
+      progress[0] = idx;
+      J sj;
+      if (!js::Parse(line, &sj)) { fprintf(stderr, "bad scenario json at line %ld\n", idx); _exit(2); }
+      Scenario sc;
+      string err;
+      if (!LoadScenario(sj, &sc, &err)) { fprintf(stderr, "scenario %ld: %s\n", idx, err.c_str()); _exit(2); }
+      Explorer ex(sc);
+      g_crumb = Crumb();
+      g_crumb.scenario_index = idx;
+      ex.props = props;
+      ex.dev_bound = (int)a.GetInt("devbound", -1);
+      if (budget > 0) ex.deadline = t0 + budget;
+      ex.Explore((int)a.GetInt("depth", -1));
+      scenarios++;
+      if (!ex.st.complete) incomplete++;
+      if (ex.st.multi_outcome_points == 0) trivial++;
+      total.states += ex.st.states;
+      total.transitions += ex.st.transitions;
+      total.invocations += ex.st.invocations;
+      total.schedules += ex.st.schedules;
+      total.commands += ex.st.commands;
+      total.multi_outcome_points += ex.st.multi_outcome_points;
+      total.max_schedules_per_point = max(total.max_schedules_per_point, ex.st.max_schedules_per_point);
+      total.tainted += ex.st.tainted;
+      total.dev_capped += ex.st.dev_capped;
+      total.crash_runs += ex.st.crash_runs;
+      total.crash_worlds += ex.st.crash_worlds;
+      total.io_fault_runs += ex.st.io_fault_runs;
+      total.max_running = max(total.max_running, ex.st.max_running);
+      for (auto& k : ex.st.outcome_kinds) total.outcome_kinds.insert(k);
+      for (auto& v : ex.violations) {
+        J o = J::Obj();
+        o.set("prop", v.prop);
+        o.set("clause", v.clause);
+        o.set("detail", v.detail);
+        o.set("facts", v.facts);
+        o.set("scenario_name", sc.name);
+        o.set("scenario_index", idx);
+        o.set("family", sc.family);
+        J tg = J::Arr();
+        for (auto& t : sc.tags) tg.push(t);
+        o.set("tags", tg);
+        o.set("history", HistToJson(sc, v.hist));
+        if (v.known >= 0) { if (known_kept[v.known]++ < 5) viol.push(o); }
+        else if (unknown_kept++ < 400) viol.push(o);
+      }
+      for (auto& s : ex.samples) if (samples.a.size() < 6) samples.push(s);
+      if (ex.st.memory_stop) memory_stops++;
+      if (budget > 0 && Explorer::Now() > t0 + budget) { incomplete++; next = -2; break; }
+      if (RssMiB() > kRecycleMiB) { next = idx + 1; break; }
     }
-    for (auto& s : ex.samples) if (samples.a.size() < 6) samples.push(s);
-    if (budget > 0 && Explorer::Now() > t0 + budget) { incomplete++; break; }
+
+      J out = J::Obj();
+    out.set("scenarios", scenarios);
+    out.set("incomplete_scenarios", incomplete);
+    out.set("single_outcome_scenarios", trivial);
+    out.set("states", total.states);
+    out.set("transitions", total.transitions);
+    out.set("invocations", total.invocations);
+    out.set("schedules", total.schedules);
+    out.set("commands", total.commands);
+    out.set("multi_outcome_points", total.multi_outcome_points);
+    out.set("max_schedules_per_point", total.max_schedules_per_point);
+    out.set("tainted_worlds", total.tainted);
+    out.set("dev_capped", total.dev_capped);
+    out.set("crash_runs", total.crash_runs);
+    out.set("crash_worlds", total.crash_worlds);
+    out.set("io_fault_runs", total.io_fault_runs);
+    out.set("max_running", total.max_running);
+    J ok = J::Arr();
+    for (auto& k : total.outcome_kinds) ok.push(k);
+    out.set("outcome_kinds", ok);
+    out.set("violations", viol);
+    out.set("samples", samples);
+    out.set("seconds", Explorer::Now() - t0);
+
+    out.set("next", (long long)next);
+    out.set("memory_stops", memory_stops);
+    string txt = js::Dump(out);
+    size_t off = 0;
+    while (off < txt.size()) {
+      ssize_t n = write(wfd, txt.data() + off, txt.size() - off);
+      if (n <= 0) break;
+      off += (size_t)n;
+    }
+  };
+  J merged = J::Obj();
+  bool first = true;
+  long start = 0;
+  int crashed_workers = 0;
+  while (start >= 0) {
+    int pfd[2];
+    if (pipe(pfd) != 0) { perror("pipe"); return 2; }
+    progress[0] = -1;
+    fflush(stdout); fflush(stderr);
+    pid_t pid = fork();
+    if (pid < 0) { perror("fork"); return 2; }
+    if (pid == 0) {
+      close(pfd[0]);
+      run_batch(start, pfd[1]);
+      close(pfd[1]);
+      _exit(0);
+    }
+    close(pfd[1]);
+    string txt;
+    char buf[65536];
+    for (;;) {
+      ssize_t n = read(pfd[0], buf, sizeof buf);
+      if (n <= 0) break;
+      txt.append(buf, (size_t)n);
+    }
+    close(pfd[0]);
+    int wst = 0;
+    waitpid(pid, &wst, 0);
+    J part;
+    bool ok = WIFEXITED(wst) && WEXITSTATUS(wst) == 0 && js::Parse(txt, &part);
+    if (!ok) {
+      if (WIFEXITED(wst) && WEXITSTATUS(wst) == 2) return 2;   // harness error, already reported on stderr
+      // the worker died inside ninja (its fatal-signal handler has printed NXCRASH) or was killed
+      crashed_workers++;
+      if (!(WIFEXITED(wst) && WEXITSTATUS(wst) == 97))
+        fprintf(stderr, "nx worker for scenario %ld ended abnormally (wait status %d)\n", progress[0], wst);
+      if (progress[0] < 0) return 3;
+      start = progress[0] + 1;
+      continue;
+    }
+    long long next = part["next"].num(-1);
+    if (first) { merged = part; first = false; }
+    else {
+      for (auto& kv : part.o) {
+        const string& k = kv.first;
+        if (k == "next" || k == "seconds") continue;
+        if (kv.second.t == J::kNum) {
+          double cur = merged[k].n;
+          bool is_max = k == "max_schedules_per_point" || k == "max_running";
+          merged.set(k, J(is_max ? max(cur, kv.second.n) : cur + kv.second.n));
+        } else if (k == "violations" || k == "samples" || k == "outcome_kinds") {
+          J arr = merged[k];
+          for (auto& x : kv.second.a) {
+            if (k == "outcome_kinds") { bool have = false; for (auto& y : arr.a) if (y.s == x.s) have = true; if (have) continue; }
+            if (k == "samples" && arr.a.size() >= 6) continue;
+            if (k == "violations" && arr.a.size() >= 2000) continue;
+            arr.push(x);
+          }
+          merged.set(k, arr);
+        }
+      }
+    }
+    start = next >= 0 ? (long)next : -1;
   }
-  J out = J::Obj();
-  out.set("scenarios", scenarios);
-  out.set("incomplete_scenarios", incomplete);
-  out.set("single_outcome_scenarios", trivial);
-  out.set("states", total.states);
-  out.set("transitions", total.transitions);
-  out.set("invocations", total.invocations);
-  out.set("schedules", total.schedules);
-  out.set("commands", total.commands);
-  out.set("multi_outcome_points", total.multi_outcome_points);
-  out.set("max_schedules_per_point", total.max_schedules_per_point);
-  out.set("tainted_worlds", total.tainted);
-  out.set("dev_capped", total.dev_capped);
-  out.set("crash_runs", total.crash_runs);
-  out.set("crash_worlds", total.crash_worlds);
-  out.set("io_fault_runs", total.io_fault_runs);
-  out.set("max_running", total.max_running);
-  J ok = J::Arr();
-  for (auto& k : total.outcome_kinds) ok.push(k);
-  out.set("outcome_kinds", ok);
-  out.set("violations", viol);
-  out.set("samples", samples);
-  out.set("seconds", Explorer::Now() - t0);
+  if (first) { merged = J::Obj(); merged.set("scenarios", 0); merged.set("violations", J::Arr()); merged.set("samples", J::Arr()); merged.set("outcome_kinds", J::Arr()); }
+  merged.set("crashed_workers", crashed_workers);
+  merged.set("seconds", Explorer::Now() - t0);
+  J& out = merged;
   dprintf(100, "%s\n", js::Dump(out).c_str());
-  return 0;
+  return crashed_workers ? 97 : 0;
 }
